@@ -24,6 +24,7 @@ type simKeep struct {
 	issued map[string][]byte // every locator returned by a successful PutB -> bytes written
 	orig   map[string]bool   // locators of the initial manifest
 	nput   int
+	nfailed int
 	// failure plan
 	failKth    int  // fail the k-th PutB (1-based), 0 = off
 	failRate   int  // permille
@@ -69,6 +70,7 @@ func (k *simKeep) PutB(p []byte) (string, int, error) {
 			}
 		}
 		if fail {
+			k.nfailed++
 			k.w.Fault("keep-put-fail")
 			if during {
 				k.w.Probe("put-failed-during-save")
@@ -113,6 +115,9 @@ func (k *simKeep) LocalLocator(l string) (string, error) { return l, nil }
 func (k *simKeep) blockOf(locator string) ([]byte, bool) {
 	if len(locator) < 32 {
 		return nil, false
+	}
+	if locator[:32] == "d41d8cd98f00b204e9800998ecf8427e" {
+		return []byte{}, true // the empty block exists by definition
 	}
 	b, ok := k.blocks[locator[:32]]
 	return b, ok
